@@ -112,7 +112,7 @@ static void one(int v)
     t->task_class = ref_tc[CID];
     FILL(&t->locals, g, s);
     for (int k = 0; k < REF_MAXF; k++)
-        if (k < ref_nflow[CID] && k != f) gt->data[ref_flow[CID][k]->flow_index].fulfill = 1;
+        if (k < ref_nflow[CID] && k != f) gt->data[ref_flow[CID][k]->flow_index].fulfill = 1;   /* constant indices after unwinding */
     for (int i = 0; i < VP_NDATA; i++) pred_entry.data[i] = &fut[i];
     n_lookup = n_create = n_addto = n_from_dep = n_from_desc = n_new = n_getcopy = 0; vp_dataof_calls = 0; req_future = NULL;
 
@@ -120,16 +120,28 @@ static void one(int v)
     VASSERTM(rc == PARSEC_HOOK_RETURN_DONE, "data_lookup completes");
     VASSERTM(n_create == 1 && n_addto == 1 && cr_repo == tp->repositories[ref_tc[CID]->task_class_id] && cr_key == ref_key_of(tp, g, CID, s),
              "the task's own repo entry is created once in its class repository under its own key");
-    const parsec_data_pair_t *dpair = &gt->data[ref_flow[CID][f]->flow_index];
+    /* generated flow_index of f / of the predecessor's flow: table reads with CONSTANT indices only */
+    int fi = 0;
+    for (int k = 0; k < REF_MAXF; k++) if (k < ref_nflow[CID] && k == f) fi = ref_flow[CID][k]->flow_index;
+    parsec_data_pair_t dcopy = gt->data[0];
+    for (int k = 0; k < REF_MAXF; k++) if (k == fi) dcopy = gt->data[k];
+    const parsec_data_pair_t *dpair = &dcopy;
     int pc = 0, pp[3] = { 0, 0, 0 }, pf = 0, co[3] = { 0, 0, 0 };
     if (ref_is_ctl(CID, f)) {
         VASSERTM(n_lookup == 0 && n_getcopy == 0 && n_new == 0 && dpair->data_in == NULL, "a control flow carries no data and triggers no lookup");
     } else if (ref_pred(g, CID, s, f, &pc, pp, &pf)) {
         n_pred_seen++;
         VASSERTM(n_lookup == 1 && n_from_dep == 1 && n_getcopy == 0 && n_new == 0, "a flow fed by a task makes exactly one repository lookup");
-        VASSERTM(lk_repo == tp->repositories[ref_tc[pc]->task_class_id], "the lookup goes to the repository of the reference predecessor's class");
+        int pcid = 0, pfi = 0;
+        for (int c = 0; c < REF_NCLS; c++)
+            for (int k = 0; k < REF_MAXF; k++)
+                if (c == pc && k == pf && ref_flow[c][k] != NULL) { pcid = ref_tc[c]->task_class_id; pfi = ref_flow[c][k]->flow_index; }
+        const data_repo_t *want_repo = NULL; const void *want_fut = NULL;
+        for (int c = 0; c < REF_NCLS; c++) if (c == pcid) want_repo = tp->repositories[c];
+        for (int k = 0; k < VP_NDATA; k++) if (k == pfi) want_fut = &fut[k];
+        VASSERTM(lk_repo == want_repo, "the lookup goes to the repository of the reference predecessor's class");
         VASSERTM(lk_key == ref_key_of(tp, g, pc, pp), "the lookup key is the real make_key of the reference predecessor instance");
-        VASSERTM(req_future == &fut[ref_flow[pc][pf]->flow_index], "the data is taken from the predecessor entry's slot of the predecessor's output flow");
+        VASSERTM(req_future == want_fut, "the data is taken from the predecessor entry's slot of the predecessor's output flow");
         VASSERTM(dpair->data_in == &copy_from_dep && dpair->source_repo == lk_repo && dpair->source_repo_entry == &pred_entry && dpair->fulfill == 1,
                  "the flow holds the delivered copy and remembers the entry it consumed");
     } else {
